@@ -21,6 +21,7 @@ import (
 	"go/types"
 	"os"
 	"path/filepath"
+	"reflect"
 	"sort"
 	"strconv"
 	"strings"
@@ -199,7 +200,7 @@ func (in *inst) run() {
 		case *ast.SelectorExpr:
 			if obj, ok := info.Uses[x.Sel].(*types.TypeName); ok && obj.Pkg() != nil && obj.Pkg().Path() == "sync" {
 				switch obj.Name() {
-				case "Mutex", "RWMutex", "WaitGroup", "Once", "Cond":
+				case "Mutex", "RWMutex", "WaitGroup", "Once", "Cond", "Pool":
 					c.Replace(&ast.SelectorExpr{X: ast.NewIdent("simrt"), Sel: ast.NewIdent(obj.Name())})
 					in.st.Mutexes++
 					in.used = true
@@ -327,6 +328,7 @@ func (in *inst) chanStmt(s ast.Stmt) ([]ast.Stmt, bool) {
 		// send itself is bracketed (a constant or nil value stays in place,
 		// it has no side effect and may need the channel's element type)
 		var pre []ast.Stmt
+		sendPos := x.Arrow
 		in.tmp++
 		chName := fmt.Sprintf("simrtCh%d", in.tmp)
 		pre = append(pre, &ast.AssignStmt{Lhs: []ast.Expr{ast.NewIdent(chName)}, Tok: token.DEFINE, Rhs: []ast.Expr{x.Chan}})
@@ -336,14 +338,10 @@ func (in *inst) chanStmt(s ast.Stmt) ([]ast.Stmt, bool) {
 			pre = append(pre, &ast.AssignStmt{Lhs: []ast.Expr{ast.NewIdent(valName)}, Tok: token.DEFINE, Rhs: []ast.Expr{x.Value}})
 			x.Value = ast.NewIdent(valName)
 		}
-		return append(pre, begin(x.Pos()), s, end()), true
+		return append(pre, begin(sendPos), s, end()), true
 	case *ast.SelectStmt:
 		in.st.ChanOps++
-		for _, c := range x.Body.List {
-			cc := c.(*ast.CommClause)
-			cc.Body = append([]ast.Stmt{end()}, cc.Body...)
-		}
-		return []ast.Stmt{begin(x.Pos()), s}, true
+		return in.selectStmt(x, s, begin, end), true
 	case *ast.RangeStmt:
 		if !in.isChan(x.X) {
 			return nil, false
@@ -377,6 +375,176 @@ func (in *inst) chanStmt(s ast.Stmt) ([]ast.Stmt, bool) {
 		return []ast.Stmt{hoist, loop}, true
 	}
 	return nil, false
+}
+
+// selectStmt makes a select deterministic.  Go picks among several ready
+// cases at random; the rewrite tries the cases one by one in source order
+// with non-blocking selects and only then falls back to the blocking select
+// (where exactly one event, caused by another task, ends the wait):
+//
+//	c1, v1 := <operands, evaluated once, in source order>
+//	Begin; select { case C1: End; B1'; default: End
+//	  Begin; select { case C2: End; B2'; default: End
+//	    Begin; select { case C1: End; B1; case C2: End; B2 } } }
+//
+// B1', B2' are copies of the bodies.  A select with a default clause needs
+// no blocking select and no copies.
+func (in *inst) selectStmt(x *ast.SelectStmt, whole ast.Stmt, begin func(token.Pos) ast.Stmt, end func() ast.Stmt) []ast.Stmt {
+	info := in.pkg.TypesInfo
+	var pre []ast.Stmt
+	hoist := func(e ast.Expr, prefix string) ast.Expr {
+		if id, ok := e.(*ast.Ident); ok {
+			return id
+		}
+		if tv, ok := info.Types[e]; ok && (tv.Value != nil || tv.IsNil()) {
+			return e
+		}
+		in.tmp++
+		name := fmt.Sprintf("%s%d", prefix, in.tmp)
+		pre = append(pre, &ast.AssignStmt{Lhs: []ast.Expr{ast.NewIdent(name)}, Tok: token.DEFINE, Rhs: []ast.Expr{e}})
+		return ast.NewIdent(name)
+	}
+	var clauses []*ast.CommClause
+	var def *ast.CommClause
+	for _, c := range x.Body.List {
+		cc := c.(*ast.CommClause)
+		if cc.Comm == nil {
+			def = cc
+			continue
+		}
+		clauses = append(clauses, cc)
+		switch c := cc.Comm.(type) {
+		case *ast.SendStmt:
+			c.Chan = hoist(c.Chan, "simrtCh")
+			c.Value = hoist(c.Value, "simrtVal")
+		case *ast.ExprStmt:
+			if u, ok := c.X.(*ast.UnaryExpr); ok {
+				u.X = hoist(u.X, "simrtCh")
+			}
+		case *ast.AssignStmt:
+			if u, ok := c.Rhs[0].(*ast.UnaryExpr); ok {
+				u.X = hoist(u.X, "simrtCh")
+			}
+		}
+	}
+	if len(clauses) == 0 || (len(clauses) == 1 && def == nil) {
+		// nothing to choose between
+		for _, c := range x.Body.List {
+			cc := c.(*ast.CommClause)
+			cc.Body = append([]ast.Stmt{end()}, cc.Body...)
+		}
+		return append(pre, begin(x.Pos()), whole)
+	}
+	// innermost statement: the default body, or the blocking select over all cases
+	var inner []ast.Stmt
+	if def != nil {
+		inner = def.Body
+	} else {
+		blocking := &ast.SelectStmt{Body: &ast.BlockStmt{}} // no position: later passes leave it alone
+		for _, cc := range clauses {
+			blocking.Body.List = append(blocking.Body.List, &ast.CommClause{Case: cc.Case, Comm: cc.Comm, Colon: cc.Colon, Body: append([]ast.Stmt{end()}, cc.Body...)})
+		}
+		inner = []ast.Stmt{begin(x.Pos()), blocking}
+	}
+	for i := len(clauses) - 1; i >= 0; i-- {
+		cc := clauses[i]
+		comm, body := cc.Comm, cc.Body
+		if def == nil {
+			comm = in.clone(cc.Comm).(ast.Stmt)
+			body = nil
+			for _, st := range cc.Body {
+				body = append(body, in.clone(st).(ast.Stmt))
+			}
+		}
+		probe := &ast.SelectStmt{Body: &ast.BlockStmt{List: []ast.Stmt{
+			&ast.CommClause{Case: cc.Case, Comm: comm, Colon: cc.Colon, Body: append([]ast.Stmt{end()}, body...)},
+			&ast.CommClause{Case: cc.Case, Body: append([]ast.Stmt{end()}, inner...)},
+		}}}
+		inner = []ast.Stmt{begin(x.Pos()), probe}
+	}
+	// inner is now [Begin, outermost probe]; a label on the original select moves to it
+	outer := inner[1]
+	if whole != ast.Stmt(x) {
+		l := whole
+		for {
+			ll := l.(*ast.LabeledStmt)
+			if _, ok := ll.Stmt.(*ast.LabeledStmt); ok {
+				l = ll.Stmt
+				continue
+			}
+			ll.Stmt = outer
+			break
+		}
+		outer = whole
+	}
+	return append(pre, inner[0], outer)
+}
+
+// clone deep-copies a syntax tree (positions included) and carries the type
+// information of expressions and identifiers over to the copy.
+func (in *inst) clone(n ast.Node) ast.Node {
+	info := in.pkg.TypesInfo
+	var cp func(v reflect.Value) reflect.Value
+	cp = func(v reflect.Value) reflect.Value {
+		switch v.Kind() {
+		case reflect.Ptr:
+			if v.IsNil() {
+				return v
+			}
+			switch v.Interface().(type) {
+			case *ast.Object, *ast.Scope:
+				return v
+			}
+			nv := reflect.New(v.Elem().Type())
+			nv.Elem().Set(cp(v.Elem()))
+			if oe, ok := v.Interface().(ast.Expr); ok {
+				ne := nv.Interface().(ast.Expr)
+				if tv, ok := info.Types[oe]; ok {
+					info.Types[ne] = tv
+				}
+				if oid, ok := oe.(*ast.Ident); ok {
+					nid := ne.(*ast.Ident)
+					if o, ok := info.Uses[oid]; ok {
+						info.Uses[nid] = o
+					}
+					if o, ok := info.Defs[oid]; ok {
+						info.Defs[nid] = o
+					}
+				}
+				if osel, ok := oe.(*ast.SelectorExpr); ok {
+					if o, ok := info.Selections[osel]; ok {
+						info.Selections[ne.(*ast.SelectorExpr)] = o
+					}
+				}
+			}
+			return nv
+		case reflect.Interface:
+			if v.IsNil() {
+				return v
+			}
+			nv := reflect.New(v.Type()).Elem()
+			nv.Set(cp(v.Elem()))
+			return nv
+		case reflect.Slice:
+			if v.IsNil() {
+				return v
+			}
+			nv := reflect.MakeSlice(v.Type(), v.Len(), v.Len())
+			for i := 0; i < v.Len(); i++ {
+				nv.Index(i).Set(cp(v.Index(i)))
+			}
+			return nv
+		case reflect.Struct:
+			nv := reflect.New(v.Type()).Elem()
+			for i := 0; i < v.NumField(); i++ {
+				nv.Field(i).Set(cp(v.Field(i)))
+			}
+			return nv
+		default:
+			return v
+		}
+	}
+	return cp(reflect.ValueOf(n)).Interface().(ast.Node)
 }
 
 func (in *inst) isMapRange(s ast.Stmt) (*ast.RangeStmt, bool) {
